@@ -78,8 +78,10 @@ PConfigsC07 ==
 PConfigsC07x ==
     { [retry |-> rt, rc |-> [RBase EXCEPT !.maxAtt = 1], bc |-> BCfg(th, 4, r)] :
         rt \in BOOLEAN, th \in {1, 2}, r \in {2, 3} }
-OutsC07x == {Out("ok", "-", None), Out("exc", T, None), Out("exc", U, None)}
-OutsC07 == {Out("ok", "-", None), Out("exc", T, None), Out("exc", U, None), Out("abort", "-", None)}
+\* (P: a failure of a class the breaker does not count, and that the loop never retries)
+OutsC07x == {Out("ok", "-", None), Out("exc", T, None), Out("exc", U, None), Out("exc", P, None)}
+OutsC07 == {Out("ok", "-", None), Out("exc", T, None), Out("exc", U, None), Out("exc", P, None),
+            Out("abort", "-", None)}
 PConfigsC15 ==
     { [retry |-> rt, rc |-> [RBase EXCEPT !.maxAtt = 2, !.handler = ha, !.bsleep = TRUE],
        bc |-> BCfg(1, 4, 2)] : rt \in BOOLEAN, ha \in BOOLEAN }
